@@ -1,21 +1,243 @@
-"""C01 - circuit breaker (work in progress)"""
+"""C01 - circuit breaker.  spec/Breaker.tla (abstract breaker: trailing window of recorded outcomes,
+explicit coin, table of benign outcomes), spec/BreakerGen.tla (behaviour generator) -> replay on the
+real lib/breaker (black-box, virtual clock, forced coin) and on the built-in integrations (HTTP
+middleware, sqlx, redis over miniredis, gRPC codes / client / server interceptors)."""
+import json, os, re, subprocess
 from vlib import core
 
-CORE_K = dict(Names='{"a","b"}', RegNames='{"a"}', Size=3, Q=2, K2=3, Prot=1, Kinds="CoreKinds")
+ENGINE = {"internal/verifc01/engine.go": "c01/engine/engine.go"}
+DRIVERS = {
+    "core":   ("./lib/breaker", "lib/breaker/zz_verif_c01_test.go", "c01/core_test.go", "^TestVerifC01Core$"),
+    "http":   ("./api/handler", "api/handler/zz_verif_c01_test.go", "c01/http_test.go", "^TestVerifC01HTTP$"),
+    "sql":    ("./lib/store/sqlx", "lib/store/sqlx/zz_verif_c01_test.go", "c01/sqlx_test.go", "^TestVerifC01SQL$"),
+    "redis":  ("./lib/store/redis", "lib/store/redis/zz_verif_c01_test.go", "c01/redis_test.go", "^TestVerifC01Redis$"),
+    "codes":  ("./rpc/internal/codes", "rpc/internal/codes/zz_verif_c01_test.go", "c01/codes_test.go", "^TestVerifC01Codes$"),
+    "client": ("./rpc/internal/clientinterceptors", "rpc/internal/clientinterceptors/zz_verif_c01_test.go",
+               "c01/client_test.go", "^TestVerifC01Client$"),
+    "server": ("./rpc/internal/serverinterceptors", "rpc/internal/serverinterceptors/zz_verif_c01_test.go",
+               "c01/server_test.go", "^TestVerifC01Server$"),
+}
+# which driver serves which api of the integration table
+API_DRIVER = {"http": "http", "sql_exec": "sql", "sql_query": "sql", "sql_prepare": "sql", "sql_transact": "sql",
+              "redis": "redis", "grpc_codes": "codes", "grpc_client": "client", "grpc_unary": "server", "grpc_stream": "server"}
+
+META = dict(
+    text="Model-based replay with a virtual clock and a forced coin: spec/Breaker.tla states the property (window of "
+         "recorded outcomes with the resolution of the 40 x 250 ms buckets, reject only when (total-5) > 1.5 x successes "
+         "and the coin agrees, rejected calls run nothing and record nothing, admitted calls record exactly one outcome, "
+         "table of benign outcomes of the integrations) and is model-checked with TLC; spec/BreakerGen.tla enumerates "
+         "every behaviour of bursts of calls (all Do*/Allow variants x ok/acceptable/unacceptable/panic, adversarial or "
+         "lenient coin) interleaved with clock advances around the ageing boundaries, over registry and private "
+         "breakers incl. NoBreakerFor and parallel bursts, plus seeded long simulations; every call is executed on the "
+         "real breaker through its public API and compared with the prediction: protected function ran, fallback ran "
+         "and its argument, returned error / re-raised panic, whether the coin was consulted and the exact drop "
+         "probability (which reveals successes/total black-box). The same engine replays the integration table "
+         "through api/handler.BreakerHandler, sqlx.Conn, redis.Redis over miniredis, rpc/internal/codes and the "
+         "client/server breaker interceptors.",
+    note="Trusted: TLC, Go runtime, the two verif hooks (timex clock, mathx coin), miniredis, httptest. The window is "
+         "decided with bucket resolution (an outcome is in the trailing window while its 250 ms bucket, aligned to the "
+         "breaker's creation, is among the last 40), so 'trailing 10 s' means 9.75-10 s depending on phase. 'Cut off "
+         "with probability approaching 1' is decided as: the probability handed to the coin equals "
+         "(total-5-1.5*successes)/(total+1); the coin itself (math/rand) is not sampled. Concurrency: parallel bursts "
+         "from 8 goroutines with the coin at 'never reject' (calls commute; totals checked by the final probe, also "
+         "under -race in the thorough tier); interleavings inside accept()/mark with an adversarial coin are not "
+         "enumerated. A promise that is neither accepted nor rejected, scan errors of sqlx and the MySQL duplicate-"
+         "entry exemption are outside the statement and not generated. Bounds: <= 4-5 macro-steps exhaustively, "
+         "bursts of 1..20 calls, 2 names; simulations up to 14 macro-steps.",
+    technique="TLA+ spec (Breaker) model-checked with TLC + TLC-generated behaviours replayed on the real breaker and "
+              "its integrations (virtual clock, forced coin)",
+    design="4/C01")
+
+FINISH = dict(rule="behaviours = complete TLC enumeration (BFS over the history variable) of macro-steps "
+                   "[burst of n calls | clock advance | NoBreakerFor] up to MaxSteps, each closed by a probe that reveals "
+                   "(successes,total); plus seeded TLC simulation of longer behaviours; plus one behaviour per "
+                   "(integration, outcome) of the benign table; every call of every behaviour is compared with the "
+                   "specification's prediction")
+
+REAL = dict(Size=40, Q=4, K2=3, Prot=5, Kinds="CoreKinds")
+
+GRPC = ["OK", "Canceled", "Unknown", "InvalidArgument", "DeadlineExceeded", "NotFound", "AlreadyExists", "PermissionDenied",
+        "ResourceExhausted", "FailedPrecondition", "Aborted", "OutOfRange", "Unimplemented", "Internal", "Unavailable",
+        "DataLoss", "Unauthenticated"]
+HTTP_QUICK = [100, 101, 199, 200, 201, 204, 301, 304, 400, 401, 403, 404, 418, 429, 451, 499, 500, 501, 502, 503, 504, 505, 511, 599]
+SQL_OUTCOMES = ["nil", "norows", "txdone", "canceled", "deadline", "other"]
+REDIS_OUTCOMES = ["nil", "rednil", "canceled", "other", "down"]
+
+
+def kd(api, oc, n=0):
+    return 'Kd("%s","%s",%d)' % (api, oc, n)
+
+
+def integ_kinds(ctx):
+    ks = []
+    codes = HTTP_QUICK if ctx.quick else range(100, 600)
+    ks += [kd("http", str(c), c) for c in codes] + [kd("http", "implicit", 200)]
+    for api in ("grpc_codes", "grpc_client", "grpc_unary", "grpc_stream"):
+        ks += [kd(api, nm, i) for i, nm in enumerate(GRPC)]
+    for api in ("sql_exec", "sql_query", "sql_prepare", "sql_transact"):
+        ks += [kd(api, oc) for oc in SQL_OUTCOMES]
+    ks += [kd("redis", oc) for oc in REDIS_OUTCOMES]
+    return ks
+
+
+def gen(ctx, name, names='{"a"}', reg='{"a"}', maxsteps=3, ns="{1,6,20}", ds="{1,3,4,156,157,159,160}", rots="{0}",
+        parns="{}", coins="{TRUE,FALSE}", advadv=False, dis=False, integ="{}", simulate=None, depth=None, timeout=1500):
+    K = dict(REAL, Names=names, RegNames=reg, MaxSteps=maxsteps, Ns=ns, Ds=ds, Rots=rots, ParNs=parns,
+             SuccSeq="CoreKindsSucc", FailSeq="CoreKindsFail", Coins=coins, AdvAdv=advadv, WithDisable=dis, IntegKinds=integ)
+    cfg = core.render_cfg(spec="GSpec", constants=K, invariants=["Emit"])
+    r = ctx.tlc("BreakerGen", cfg, constants=K, name=name, simulate=simulate, depth=depth, timeout=timeout,
+                workers=(1 if simulate else 6), heap="6g")
+    return r.printed
 
 
 def mc(ctx):
-    K = dict(CORE_K)
-    K["Kinds"] = ('{Kd("do","ok",0), Kd("do","panic",0), Kd("doacc","acc",0), Kd("doacc","err",0), Kd("dofb","err",0), '
-                  'Kd("dofbacc","acc",0), Kd("allow","accept",0), Kd("allow","reject",0), Kd("http","499",499), Kd("http","500",500), '
-                  'Kd("grpc_unary","Internal",13), Kd("grpc_unary","NotFound",5), Kd("sql_exec","norows",0), Kd("redis","other",0)}')
-    cfg = core.render_cfg(spec="Spec", constants=K, invariants=["TypeOK", "OnlySuccessNeverRejectable"],
-                          properties=["RejectOnlyOnExcess", "AgedOut", "KeepsFailing", "RejectedRunsNothing",
-                                      "AdmittedRecordsOne", "BenignNeverTowardsOpen", "NopNeverRejects"],
+    K = dict(Names='{"a","b"}', RegNames='{"a"}', Size=3, Q=2, K2=3, Prot=1)
+    kinds = ['Kd("do","ok",0)', 'Kd("do","panic",0)', 'Kd("doacc","acc",0)', 'Kd("dofb","err",0)', 'Kd("allow","reject",0)',
+             'Kd("http","499",499)', 'Kd("grpc_unary","Internal",13)', 'Kd("sql_exec","norows",0)']
+    if not ctx.quick:
+        kinds += ['Kd("dofbacc","acc",0)', 'Kd("http","500",500)', 'Kd("redis","other",0)']
+    K["Kinds"] = "{" + ", ".join(kinds) + "}"
+    props = ["RejectOnlyOnExcess", "AgedOut", "KeepsFailing", "RejectedRunsNothing", "AdmittedRecordsOne",
+             "BenignNeverTowardsOpen", "NopNeverRejects"]
+    cfg = core.render_cfg(spec="Spec", constants=K, invariants=["TypeOK", "OnlySuccessNeverRejectable"], properties=props,
                           constraints=["Bound"], view="core")
-    return ctx.tlc("Breaker", cfg, constants=K, defs=dict(Bound="T(\"a\") + T(\"b\") <= 5"), name="Breaker-mc",
-                   timeout=600, workers=6)
+    bound = 4 if ctx.quick else 5
+    r = ctx.tlc("Breaker", cfg, constants=K, defs=dict(Bound='T("a") + T("b") <= %d' % bound), name="Breaker-mc",
+                timeout=1500, workers=6, coverage=not ctx.quick)
+    ctx.notes["mc_bounds"] = "Size=3 Q=2 Prot=1 K2=3, 2 names, %d kinds, total outcomes in windows <= %d" % (len(kinds), bound)
+    ctx.notes["mc_properties"] = ["TypeOK", "OnlySuccessNeverRejectable"] + props
+    if ctx.quick:
+        return
+    # vacuity guard (thorough tier: -coverage costs about a third of the run) (own parser: TLC prints "<Call line .. of module Breaker (145 6 147 88)>: distinct:total")
+    cov = {}
+    for line in open(os.path.join(ctx.build, "tlc-Breaker-mc", "tlc.out"), errors="replace"):
+        m = re.match(r"^<(\w+) line \d+, col \d+ to line \d+, col \d+ of module Breaker[^>]*>: (\d+):(\d+)", line)
+        if m:
+            cov[m.group(1)] = int(m.group(3))
+    missing = [a for a in ("Call", "Advance", "Disable") if cov.get(a, 0) == 0]
+    if missing:
+        raise core.Infra("vacuous model: actions never taken: %s (%s)" % (missing, cov))
+    ctx.notes["mc_action_coverage"] = cov
+
+
+def overlay(*drivers):
+    ov = dict(ENGINE)
+    for d in drivers:
+        ov[DRIVERS[d][1]] = DRIVERS[d][2]
+        if d == "core":
+            ov["lib/breaker/zz_verif_c01_trace_test.go"] = "c01/trace_test.go"
+    return ov
+
+
+def record_and_validate(ctx, binp, label, rounds, gomaxprocs, shard):
+    """code -> spec: record concurrent histories on the real breaker, validate them with TLC (BreakerTrace.tla)."""
+    path = os.path.join(ctx.build, "trace-%s.ndjson" % label)
+    e = dict(os.environ)
+    e.update(core.GOENV)
+    e.update(VERIF_SEED=str(ctx.seed), VERIF_TRACE=path, VERIF_ROUNDS=str(rounds), VERIF_SHARD=str(shard), GOMAXPROCS=str(gomaxprocs))
+    p = subprocess.run([binp, "-test.run", "^TestVerifC01Trace$", "-test.count=1", "-test.timeout", "600s"],
+                       cwd=os.path.join(core.REPO, "lib/breaker"), env=e, capture_output=True, text=True, timeout=700)
+    out = p.stdout + p.stderr
+    if "DATA RACE" in out:
+        ctx.disagree("C01:data-race", "race detector report while calling one breaker from several goroutines:\n" + out[-3000:],
+                     source="race")
+        return
+    if p.returncode != 0 or "C01TRACES" not in out:
+        raise core.Infra("C01 trace recorder failed rc=%s\n%s" % (p.returncode, out[-3000:]))
+    acc, rej = ctx.validate_traces("BreakerTrace", path, key_prefix="C01:trace", invariants=["Inv_OnlySuccess", "Inv_Counts"],
+                                   name="trace-" + label, timeout=1500)
+    if len(ctx.samples) < 5:
+        ctx.samples.append([json.loads(x) for x in open(path).read().splitlines()[:16]])
+
+
+def replay_chunks(ctx, drv, binp, cases, label, chunk=30000, shards=12):
+    pkg, _, _, run = DRIVERS[drv]
+    for i in range(0, len(cases), chunk):
+        lab = label if len(cases) <= chunk else "%s.%d" % (label, i // chunk)
+        path, _ = ctx.write_cases(lab + ".ndjson", cases[i:i + chunk])
+        ctx.replay(pkg, overlay(drv), run, path, label=lab, shards=min(shards, max(1, len(cases[i:i + chunk]) // 20)), binp=binp)
+
+
+def first_api(case):
+    return json.loads(case)[0]["calls"][0][0]
 
 
 def run(ctx):
+    ctx.assumptions += [
+        "the trailing window has the resolution of the implementation's buckets (40 x 250 ms aligned to the breaker's creation)",
+        "the coin is forced through mathx.SetVerifCoin (true = a draw below any positive probability, false = a draw above "
+        "any probability); the distribution of math/rand is trusted",
+        "outcomes not listed as benign by the statement (HTTP >= 500, the five gRPC codes, other sql/redis errors) are "
+        "expected to count as failures (otherwise 'one that keeps failing is cut off' could not hold for the integration)",
+    ]
     mc(ctx)
+    bins = {d: ctx.go_build(DRIVERS[d][0], overlay(d), name="c01" + d) for d in DRIVERS}
+
+    # ---------------------------------------------------------------- core: exhaustive
+    ctx.exhaustive = True
+    if ctx.quick:
+        plans = [("gA", dict(maxsteps=4, ns="{1,6,20}", ds="{1,3,157,159,160}")),
+                 ("gB", dict(names='{"a","p"}', maxsteps=3, ns="{2,7}", ds="{3,160}", parns="{8}", dis=True))]
+        sims = [("sA", dict(names='{"a","p"}', maxsteps=10, ns="{1,2,5,6,7,13,20}", ds="{1,2,3,4,39,80,156,157,158,159,160,161,400}",
+                            parns="{8}", dis=True, advadv=True, rots="{0,3,6}"), 400, 12)]
+    else:
+        plans = [("gA", dict(maxsteps=4, ns="{1,5,6,7,20}", ds="{1,3,4,156,157,159,160}")),
+                 ("gA5", dict(maxsteps=5, ns="{6,13}", ds="{3,157,160}")),
+                 ("gB", dict(names='{"a","p"}', maxsteps=3, ns="{1,7}", ds="{3,159,160}", parns="{8}", dis=True, rots="{0,4}")),
+                 ("gK", dict(maxsteps=2, ns="{1,9,20}", ds="{160}", rots="0..8"))]
+        sims = [("sA", dict(names='{"a","p"}', maxsteps=14, ns="{1,2,5,6,7,13,20}", ds="{1,2,3,4,39,80,156,157,158,159,160,161,400}",
+                            parns="{8,40}", dis=True, advadv=True, rots="{0,3,6}"), 2500, 16),
+                ("sB", dict(names='{"a","b","p"}', reg='{"a","b"}', maxsteps=10, ns="{1,6,20,60}", ds="{1,3,120,157,159,160}",
+                            parns="{16}", dis=True, advadv=True, rots="{0,4}"), 1000, 12)]
+    for name, kw in plans:
+        cases = gen(ctx, name, **kw)
+        ctx.samples += core.sample_of(cases, 1)
+        replay_chunks(ctx, "core", bins["core"], cases, name)
+    for name, kw, num, depth in sims:
+        cases = gen(ctx, name, simulate=num, depth=depth, **kw)
+        ctx.samples += core.sample_of(cases, 1)
+        replay_chunks(ctx, "core", bins["core"], cases, name)
+
+    # ---------------------------------------------------------------- concurrency: code -> spec trace validation
+    # (several goroutines on one breaker, seeded coin; TLC places the window reads and the outcome marks)
+    if ctx.quick:
+        for i, gmp in enumerate((4, 16)):
+            record_and_validate(ctx, bins["core"], "g%d" % gmp, 120, gmp, i)
+    else:
+        pkg, _, _, runre = DRIVERS["core"]
+        rb = ctx.go_build(pkg, overlay("core"), race=True, name="c01core-race")
+        for i, gmp in enumerate((1, 2, 4, 8, 16)):
+            record_and_validate(ctx, rb, "g%d" % gmp, 400, gmp, i)
+        # race detector on the parallel bursts of the replay driver
+        cases = gen(ctx, "gR", names='{"a","p"}', maxsteps=3, ns="{7}", ds="{160}", parns="{8,40}", dis=True)
+        path, _ = ctx.write_cases("gR.ndjson", cases)
+        ctx.replay(pkg, overlay("core"), runre, path, label="gR-race", shards=4, binp=rb, race=True)
+
+    # ---------------------------------------------------------------- integration table
+    ks = integ_kinds(ctx)
+    cases = gen(ctx, "gI", names='{"x"}', reg="{}", maxsteps=2, ns="{7}", ds="{}", integ="{" + ", ".join(ks) + "}")
+    if len(cases) != len(ks):
+        raise core.Infra("integration table: %d kinds but %d behaviours generated" % (len(ks), len(cases)))
+    by = {}
+    for c in cases:
+        by.setdefault(API_DRIVER[first_api(c)], []).append(c)
+    ctx.notes["integration_table"] = {d: len(v) for d, v in sorted(by.items())}
+    for d, cs in sorted(by.items()):
+        ctx.samples += core.sample_of(cs, 1)[:1] if d in ("http", "sql") else []
+        replay_chunks(ctx, d, bins[d], cs, "int-" + d, shards=(4 if len(cs) > 100 else 1))
+
+
+def replay(ctx, rp):
+    case = rp["case"]
+    label = rp.get("label") or ""
+    if rp.get("source") == "trace":
+        path = os.path.join(ctx.build, "replay.ndjson")
+        open(path, "w").write("\n".join(json.loads(case)) + "\n")
+        ctx.validate_traces("BreakerTrace", path, key_prefix="C01:trace", invariants=["Inv_OnlySuccess", "Inv_Counts"], name="replay")
+        return
+    drv = "core"
+    if label.startswith("int-"):
+        drv = label[4:].split(".")[0]
+    path, _ = ctx.write_cases("replay.ndjson", [case])
+    pkg, _, _, runre = DRIVERS[drv]
+    ctx.replay(pkg, overlay(drv), runre, path, label="replay")
